@@ -60,7 +60,7 @@ def _mk_key(a):
 
 
 class R:
-    __slots__ = ("num", "den", "_k", "_h")
+    __slots__ = ("num", "den", "_k", "_h", "tree")
 
     def __init__(self, num, den=None):
         # num, den: dict monomial -> Fraction ; monomial: tuple of (atom, power)
@@ -83,6 +83,16 @@ class R:
         self.den = tuple(sorted(den.items(), key=lambda mc: _mono_key(mc[0])))
         self._k = None
         self._h = None
+        self.tree = None  # optional un-normalised expression tree (not part of equality); see with_tree
+
+    def with_tree(self, tree):
+        """A copy of this value that remembers how it was written in the source:
+        ('add'|'sub'|'mul'|'div', a, b), ('neg', a), ('pow', a, n), ('cmp', op, a, b).  Used by the
+        polarity calculus, which needs the structure that normalisation expands away."""
+        r = R.__new__(R)
+        r.num, r.den, r._k, r._h = self.num, self.den, self._k, self._h
+        r.tree = tree
+        return r
 
     # -- structure -------------------------------------------------------
     def key(self):
